@@ -438,6 +438,13 @@ impl BDF {
                 if let Some(prev) = dy_norm_prev {
                     if prev > 0.0 {
                         let rate = dy_norm / prev;
+                        // Corrections that stagnate far below the tolerance sit at the rounding
+                        // level of the residual, where no contraction rate can be observed:
+                        // the iterate has converged
+                        if rate >= 1.0 && dy_norm.max(prev) < 0.5 * newton_tol_val {
+                            converged = true;
+                            break;
+                        }
                         if rate < 1.0 {
                             let estimate = rate / (1.0 - rate) * dy_norm;
                             if estimate < newton_tol_val {
